@@ -37,6 +37,7 @@ INF = 10 ** 9
 K_TRASH = "trashed-connection-never-closed-by-hostconnection-shutdown"
 K_INSTALL = "replacement-connection-installed-into-shut-down-pool"
 K_POOL_LATE = "pool-finished-after-session-shutdown-is-installed-open"
+K_POOL_QUEUED = "pool-creation-queued-before-session-shutdown-still-opens-a-connection-afterwards"
 K_CC_LATE = "control-connection-installed-by-reconnect-after-shutdown"
 K_CONNECT_RACE = "session-created-while-cluster-shuts-down-is-never-shut-down"
 
@@ -496,7 +497,7 @@ def classify(v, R=None):
             return K_TRASH
         if info['where'] == 'pool' and info['pool_shutdown'] and cr in ('pool-replace', 'pool-grow') and not info['conn_in_a_pool_at_call']:
             return K_INSTALL
-        if info['where'] is None and cr == 'pool-replace' and (info['task'] or {}).get('fn', '').endswith('HostConnection._replace') and not info['connected_at_call'] \
+        if info['where'] is None and cr == 'pool-replace' and (info['task'] or {}).get('fn', '').endswith('HostConnection._replace') \
                 and not info['conn_in_a_pool_at_call'] and not (info['task'] or {}).get('submitted_after_return') and info['proto'] >= 3:
             # same late _replace; HostConnection.shutdown was between closing the old connection and `self._connection = None` when the
             # replacement was stored: the slot is wiped without closing what is in it
@@ -526,6 +527,9 @@ def classify(v, R=None):
         if info['creator'] == 'pool-init' and info['target'] == 'session' and info['where'] == 'pool' and info['pool_shutdown'] is False \
                 and info['owner_session_shutdown'] and not info['pool_installed_at_call'] and t.get('fn', '').endswith('run_add_or_renew_pool'):
             return K_POOL_LATE          # the task was queued before Session.shutdown() and ran afterwards: same missing re-check
+        if info['creator'] == 'pool-init' and info['target'] == 'session' and info['closed_in_the_end'] and info['where'] is None \
+                and t.get('fn', '').endswith('run_add_or_renew_pool') and not t.get('submitted_after_call'):
+            return K_POOL_QUEUED        # queued before Session.shutdown(), started afterwards; closed again once connected
         return "connection-opened-after-shutdown-returned"
     if kind == 'accepted':
         if R is not None and any(v2[0] == 'open' and classify(v2) in (K_POOL_LATE, K_CONNECT_RACE) for v2 in R['viol']):
@@ -557,7 +561,7 @@ def run(ctx):
     rot = (ctx.seed - 1) % max(1, len(rest))
     rest = rest[rot:] + rest[:rot]
     order = first + rest
-    budget = 38 if ctx.quick else 300
+    budget = 20 if ctx.quick else 150        # CPU seconds of this worker (vlib caps wall-clock at 4x)
     mine = [allv[i] for j, i in enumerate(order) if j % nw == me]
     rounds = 0
     complete = 0
